@@ -91,6 +91,9 @@ def run(run, ix, tier):
                                  'equality decided by a shortcut that is not exact componentwise '
                                  'comparison', line=x.lineno))
     check_mpc_eq_operand(run, ix, 'H-C04')
+    from .kernel_rules import check_amplified_error
+    run.rule('B-R10', floor=6, desc='amplified intermediates carry multiplier-dependent guard bits')
+    check_amplified_error(run, ix, 'B-R10')
     # fadd/fsub/fmul: kernels receive the parsed pair
     for name in ('fadd', 'fsub', 'fmul'):
         f = ix.func('mpmath/ctx_mp.py', 'MPContext.%s' % name)
